@@ -41,10 +41,21 @@ fn qforms(id: u32, full: bool) -> Vec<(String, Entry, Vec<Seg>)> {
             Entry::EachCall,
             vec![seg(r(0), Quant::Once), seg(r(1), Quant::N(1))],
         ),
+        // exactly no call at all
+        ("exact0".into(), Entry::EachCall, vec![seg(r(0), Quant::N(0))]),
+        // an answer that parks a clone of the mock in the instance it runs on (released by teardown
+        // before the clones are counted): the verdict is about the counts all the same
+        (
+            "lending-answers-exact1".into(),
+            Entry::EachCall,
+            vec![seg(Resp::AnsArc(LENDING_ANSWER_ID + id), Quant::N(1))],
+        ),
     ];
     if full {
         for n in [0usize, 2] {
-            v.push((format!("exact{n}"), Entry::EachCall, vec![seg(r(0), Quant::N(n))]));
+            if n != 0 {
+                v.push((format!("exact{n}"), Entry::EachCall, vec![seg(r(0), Quant::N(n))]));
+            }
             v.push((
                 format!("atleast{n}"),
                 Entry::EachCall,
